@@ -8,6 +8,7 @@ import (
 	"math/rand"
 	"os"
 	"path/filepath"
+	goruntime "runtime"
 	"sort"
 	"strconv"
 	"strings"
@@ -264,6 +265,7 @@ func sweepReplies(pe *eval.PolicyEngine, c *world.Conc, M int, s, d engEndpoint,
 							cd = 4 // panic inside a query
 						}
 					}()
+					run.Tick()
 					b, err := pe.CheckIfAllowed(s.str, d.str, pr, strconv.Itoa(port))
 					if err != nil {
 						return 2
@@ -404,6 +406,9 @@ func replayHistory(em *emitter, id int, src string, ops []EngOp, seed int64) {
 	}
 	em.emit(doSweep(pe, st, conc, w, len(ops)))
 	em.emit(doPeek(pe, st, conc, w))
+	if id%8 == 0 {
+		goruntime.GC() // see runCase: file descriptors of the engine's cache-hit log are only released by finalisers
+	}
 }
 
 func readHistories(path string) ([][]EngOp, error) {
